@@ -27,7 +27,8 @@ schedule labels separated by `,` (`-` = none). `S` starts the request (the worke
            event    TM<code> (TerminateStream) | TMm<code> / TMs<code> (… landing INSIDE setupRetry, after the mark / after the
                     swing of the response slot: the call behaves as in the back-off, fix 4e7d4a7f0) | DR | CC | GT (the global
                     timer fires during the sleep) | GSm / GSs (… fires INSIDE setupRetry: label gtInSetup) | HG | PFo | PFc |
-                    L<d><t> (late frame of attempt k)
+                    L<d><t> (late frame of attempt k) | DS (the client leaves while the wake-up is inside the upstream send of
+                    attempt k+1: labels work — the Retry pass —, then DR)
          XT<k>:<reason>:<code>  PTT<k>:<code>  RT<k>:<status>:<d><t>:<code>   proxy9 spelling of ZB:…:TM<code>
          ZS<k>:<code>:<d><t>:<w|f|h>:<reason> — the head of a streamed response of attempt k, then the reset of its open client
          stream BEFORE the head is forwarded: with the wake-up of the head not yet consumed (w: no worker step between the
@@ -198,6 +199,12 @@ def parseLabels (s : String) : Option (List (Label × Nat)) :=
     match (dropS s 3).splitOn ":" with
     | [trigT, evT] => do
       let (trig, k) ← parseBoTrigger trigT
+      if evT == "DS" then
+        -- the client leaves while the wake-up is inside the upstream send of attempt k+1: the Retry pass runs (one worker step:
+        -- `doRetry`, `processError` finds nothing yet), then the reset; `processError` of the real Retry phase finds it — the same
+        -- clean-up, of a stream whose new attempt is live
+        pure [(trig, 1), (.work, 2), (.downReset .StreamConnectionTermination, 0)]
+      else
       let ev ← parseBoEvent evT k
       pure [(trig, 1), (ev, 0)]
     | _ => none
